@@ -669,8 +669,11 @@ impl DdlExecutor {
                 .catalog()
                 .get_relation(instr.table_id, &tree_builder, &snapshot)
             {
-                Ok(rel) => rel,
-                Err(_) => {
+                // A statement naming a table that does not exist is bound to object id 0 (`unwrap_or(0)`), which is
+                // the id of the first table ever created: DROP TABLE IF EXISTS <missing> used to drop that table.
+                // The object found under the id must be the one the statement names.
+                Ok(rel) if rel.name().eq_ignore_ascii_case(&instr.table_name) => rel,
+                _ => {
                     if instr.if_exists {
                         return Ok(DdlResult::NoOp);
                     }
